@@ -45,7 +45,14 @@ class Script:
             else:
                 specials = [0, 1 << 63, 0x3ff0000000000000, 0x7ff0000000000000, 0xfff0000000000000, 0x7ff8000000000000,
                             0x7ff8000000000001, 0x7ff0000000000001, 0xfff8123456789abc, 1, 0x000fffffffffffff, 0x7fefffffffffffff]
-            return r.choice(specials) if r.random() < 0.6 else r.getrandbits(w)
+            v = r.choice(specials) if r.random() < 0.6 else r.getrandbits(w)
+            if self.lang == "js":
+                # a JS number cannot carry a NaN payload or sign reliably through the engine: NaNs are left to the C/C++ legs
+                exp_all_ones = ((v >> 23) & 0xff) == 0xff if w == 32 else ((v >> 52) & 0x7ff) == 0x7ff
+                mant = v & ((1 << (23 if w == 32 else 52)) - 1)
+                if exp_all_ones and mant:
+                    v = 0x3fc00000 if w == 32 else 0x3ff8000000000000
+            return v
         cls = r.random()
         if cls < 0.12:
             return 0
@@ -68,6 +75,9 @@ class Script:
             return [r.choice([0, 0x41, 0xd800, 0xdc00, 0xffff, 0x20ac, r.getrandbits(16)]) for _ in range(n)]
         if enc == "utf8":
             return r.choice(["", "", "a", "héllo", "€uro", "😀", "a\u0000b", "ascii only text", "߿￿\U0010ffff"]).encode("utf-8")
+        if self.lang == "js":
+            # a JS string is the only way to pass a DiplomatStr from JS: always well-formed
+            return r.choice(["", "", "a", "h\u00e9", "\u20acuro", "\U0001f600", "plain", "x\u0000y"]).encode("utf-8")
         # unvalidated: may be invalid UTF-8
         return r.choice([b"", b"", b"a", b"\xff\xfe", b"h\xc3\xa9", b"\xed\xa0\x80", b"\x00", b"plain", bytes(r.getrandbits(8) for _ in range(r.randint(1, 9)))])
 
@@ -338,7 +348,7 @@ class Script:
             if pt[0] == "cb" and args[pn]["destructor"]:
                 lines.append(("C", "CBDROP %d" % args[pn]["cb"]))
         wparams = [args[pn] for pn, pt in m.params if pt[0] == "write"]
-        if self.lang == "cpp" and wparams:
+        if self.lang in ("cpp", "js") and wparams:
             text = '"' + "".join(c.encode("utf-8").hex() for c in wparams[0]["chunks"]) + '"'
             if m.ret == ("unit",):
                 rc = text
@@ -352,7 +362,7 @@ class Script:
         else:
             lines.append(("C", "RET %s#%d %s" % (m.abi_name, n, self.canon_ret(m.ret, ret, m, args))))
         for pn, pt in m.params:
-            if pt[0] == "slice" and pt[2]:
+            if pt[0] == "slice" and pt[2] and self.lang != "js":      # JS copies the array into wasm memory: the mutation is not visible to the caller
                 lines.append(("C", "MUT %s %s" % (pn, self.canon(pt, {"items": [mutate(pt[1], x) for x in args[pn]["items"]]}))))
             if pt[0] == "write" and self.lang == "c":
                 lines.append(("C", "WR %s" % write_expect(args[pn])))
@@ -389,6 +399,8 @@ class Script:
         return out
 
     def destroy(self, o):
+        if self.lang == "js":
+            return                      # no explicit destruction in JS: the FinalizationRegistry decides (checked separately)
         o.alive = False
         self.steps.append({"kind": "destroy", "obj": o, "expect": [("R", "DROP %s#%d" % (o.ty, o.id))]})
         self.expected.append("DROP %s#%d" % (o.ty, o.id))
